@@ -1,0 +1,45 @@
+//go:build verif
+
+package dastard
+
+// Verification hooks (build tag "verif" only). Each is a no-op unless a test driver installs the
+// corresponding function variable. See /verif/DESIGN.md.
+
+var (
+	// VPoint is called at named points of the life-cycle code; a driver may block in it (schedule gate).
+	VPoint func(name string)
+	// VEvent records an event with arguments at a linearisation point.
+	VEvent func(name string, kv ...any)
+	// VCrash lets a driver simulate a process kill at a named point (the caller returns immediately).
+	VCrash func(name string) bool
+	// VRecover, when installed, turns a panic in a worker goroutine into a recorded event.
+	VRecover func(name string, r any)
+)
+
+func vpoint(name string) {
+	if f := VPoint; f != nil {
+		f(name)
+	}
+}
+
+func vevent(name string, kv ...any) {
+	if f := VEvent; f != nil {
+		f(name, kv...)
+	}
+}
+
+func vcrash(name string) bool {
+	if f := VCrash; f != nil {
+		return f(name)
+	}
+	return false
+}
+
+// vrecover must be deferred directly: defer vrecover("where").
+func vrecover(name string) {
+	if f := VRecover; f != nil {
+		if r := recover(); r != nil {
+			f(name, r)
+		}
+	}
+}
